@@ -79,7 +79,9 @@ def _base_ctype(bt):
             if full in ('np.int_t', 'np.int64_t', 'np.long_t'):
                 return ('int', True, 64)
             return ('obj', name)
-        if name in ('double', 'float'):
+        if name == 'float':
+            return ('double', 32)        # C float: single precision (a store into it rounds to 24 bits: 'conv' obligation)
+        if name == 'double':
             return ('double',)
         if name == 'bint':
             return ('bint',)
@@ -140,7 +142,9 @@ def _template_arg_type(e):
         return _base_ctype(e)
     if cn == 'NameNode':
         nm = e.name
-        if nm in ('double', 'float'):
+        if nm == 'float':
+            return ('double', 32)
+        if nm == 'double':
             return ('double',)
         if nm in _INT_NAMES:
             return ('int', nm not in ('unsigned', 'size_t'), _INT_NAMES[nm])
